@@ -276,12 +276,18 @@ PROPS["C01"] = dict(
 
 PROPS["C02"] = dict(
     module="c02", func="run", level="other", crates=["emmylua_parser"],
-    technique="progress (must-consume) summaries + natural-loop cycle search, call-graph SCCs with left-recursion and depth-guard tests, explicit-panic audit",
-    text="Decides the structural termination conditions of the parser: every loop of lexer/parser/grammar progresses on every cycle "
-         "(three loops audited with their argument), and whether each recursive cycle has a depth guard (none has: two open findings with the failing input); explicit panics are discharged.",
+    technique="progress (must-consume) summaries + natural-loop cycle search, call-graph SCCs with left-recursion and depth-guard tests, "
+              "enter/leave nesting pairing on the CFG, explicit-panic audit, bounds-fact derivation over MIR for every index/slice/"
+              "subtraction site reachable from the parse entry points with an audited remainder",
+    text="Decides the structural termination and crash conditions of the parser: every loop of lexer/parser/grammar progresses on every "
+         "cycle (three loops audited with their argument); every recursive cycle of the grammar passes a depth guard (enter_nesting, "
+         "paired with leave_nesting on every path; the missing guards were repaired, see known_findings.json); explicit panics are "
+         "discharged; every index / slice / drain site and unsigned subtraction reachable from LuaParser::parse is discharged by a "
+         "derived bounds fact or an audited per-site invariant (R02f).",
     note="Not decided: linear-time complexity, allocation failure, termination of the lexers' own loops (value-level: each lex call "
-         "consumes a character), absence of left recursion (needs token-kind correlation; listed as informational), and the "
-         "indexing/unwrap panic surface of the parser (about 60 sites over token arrays, not audited in this round).")
+         "consumes a character), absence of left recursion (needs token-kind correlation; listed as informational), unwrap/expect "
+         "sites, and a changed expression at an already-audited site. Trusted: the 43 audited reasons of R02f in tables/panic_audit.json; "
+         "five of them rest on the parser invariant 'bump() is never called at TkEof', which was read and probed but is not proven by a rule.")
 
 PROPS["C12"] = dict(
     module="c12", func="run", level="other", crates=["emmylua_code_analysis"],
